@@ -42,7 +42,7 @@ LEVEL_TEXT = (
 TECHNIQUE = "Lean 4 proof (order enumeration, index arithmetic, entry = quadrature) + differential correspondence + direct-quadrature oracle"
 GEN = ["moments", "moments_num"]
 LEAN_MODULES = ["GridVerif.Props.C14", "GridVerif.Props.C14.Values", "GridVerif.Props.C14.Dipole", "GridVerif.Props.C14.Gen",
-                "GridVerif.Props.C14.GenNum", "GridVerif.Props.C14.GenDipole"]
+                "GridVerif.Props.C14.GenNum", "GridVerif.Props.C14.GenDipole", "GridVerif.Props.C14.GenAdditive"]
 THEOREMS = [
     "GridVerif.C14.cartesian_orders_spec",
     "GridVerif.C14.pure_orders_spec",
@@ -78,6 +78,10 @@ THEOREMS = [
     "GridVerif.C14.gen_integrate_spec",
     "GridVerif.C14.gen_moments_defaults",
     "GridVerif.C14.gen_multidomain_not_implemented",
+    # round 6: additivity over any split of the grid, freshness of what is returned
+    "GridVerif.C14.gen_moments_additive",
+    "GridVerif.C14.gen_integrate_additive",
+    "GridVerif.C14.gen_returns_fresh",
 ]
 RULE = (
     "correspondence: generate_orders_horton_order for every type x dim 0..4 x order 0..8 (exact); Grid.moments on random "
